@@ -57,8 +57,20 @@ def build_harness():
 
 
 # ----------------------------------------------------------------------------------------- TLC
+SCHEMA_PATH = os.path.join(WORK, "schemaP.json")
+
+
+def write_schema():
+    """the published schema (proto/ommx/v1/*.proto of the working tree) as a table for Wire.tla"""
+    sys.path.insert(0, os.path.join(ROOT, "tools"))
+    import schema_tables
+    os.makedirs(WORK, exist_ok=True)
+    json.dump(schema_tables.table_P("/repo"), open(SCHEMA_PATH, "w"))
+
+
 def tlc_env(extra_java=""):
-    return {"JAVA_TOOL_OPTIONS": f"-Xss1g -DTLA-Library={SPEC}:{SPEC}/gen:{SPEC}/mc {extra_java}".strip()}
+    return {"JAVA_TOOL_OPTIONS": f"-Xss1g -DTLA-Library={SPEC}:{SPEC}/gen:{SPEC}/mc {extra_java}".strip(),
+            "SCHEMA": SCHEMA_PATH}
 
 
 TLC_STATS = re.compile(r"(\d+) states generated, (\d+) distinct states found")
@@ -219,6 +231,7 @@ def check(prop, tier, seed):
     shutil.rmtree(wd, ignore_errors=True)
     os.makedirs(wd, exist_ok=True)
     build_s = build_harness()
+    write_schema()
     quick = tier == "quick"
     mc_stats, gen_stats = [], []
     # M
@@ -353,6 +366,7 @@ def check(prop, tier, seed):
 
 def replay(prop, path):
     build_harness()
+    write_schema()
     wd = os.path.join(WORK, prop + "_replay")
     shutil.rmtree(wd, ignore_errors=True)
     os.makedirs(wd)
